@@ -129,6 +129,38 @@ CHECKS = [
               'domain x segment to 1e-10 for dyadic segments on all three domains (cell classes, Jacobians, tiling). The '
               '1e-5 accuracy for the true kernel is searched against the closed-form potentials.',
          note='accuracy for the non-polynomial kernel E1 is not a theorem; the tie is in floats (domain mesh vertices are floats) with tolerance 1e-10'),
+    dict(id='C14', design_ref='DESIGN.md section 6 / C14', category='proof',
+         technique='Lean 4 theorems (reduction of the seminorm rules to moment functionals, rule-independence under exact moments, invariances) + exact execution of the real Slobodeckij class on rational stand-in rules',
+         text='Proof in exact arithmetic for every rule and interval: non-negativity, zero on constants, quadratic scaling, '
+              'translation invariance, curve-aware = flat on straight unit-speed pieces (any rational direction); for a '
+              'polynomial of degree <= d the H^{1/4} and H^{1/2} routines are a fixed bilinear form in the moments of the base '
+              'rules (the 1/y and 1/(x-xy)^2 weights cancel), hence every rule with exact weighted moments up to the stated '
+              'order returns the same value; the weight moments are the real integrals (Mathlib); the two-piece cross rule is '
+              'exact on polynomials with its singular corner at (b1,a2). Tie: the real class with patched rule constructors '
+              'run on Fractions (sqrt(h) handled by an exact-root number class), all streams compared with the model.',
+         note='identification of the rule-independent value with the improper double integral (Duffy substitution) stays in the '
+              'trusted base; twelve digits in binary64 and the corner case against a graded reference are search-only'),
+    dict(id='C16', design_ref='DESIGN.md section 6 / C16', category='proof',
+         technique='Lean 4 invariant proof over all refinement sequences + boundary-targeting theorem + state-dump correspondence of the real InitialMesh',
+         text='Proof: the quadtree invariant (half-open tiling of the domain by dyadic squares, 2:1 balance across edges, unique '
+              'vertex coordinates = element corners, ids, forest structure) holds for the unit square and the L-shape and is '
+              'preserved by refine on any leaf of any reachable mesh, which never trips the level assertion and terminates '
+              '(fuel level+1); boundary targeting with fuel j+1 returns a leaf of the right level whose side is exactly the '
+              'requested dyadic piece (either orientation), it is the only such leaf/side, the invariant persists and both end '
+              'points are found by vertex lookup. Tie: exhaustive refinement sequences, random histories and all segments '
+              'l <= 5/8 of the real InitialMesh compared dump by dump with the model.',
+         note='isclose/eps modelled as equality (dyadic coordinates, depth <= 30); pi square treated as the unit square in units of pi'),
+    dict(id='C09', design_ref='DESIGN.md section 6 / C09', category='proof',
+         technique='Lean 4 theorems (shortcut = direct sum, patch specifications, weighted-L2 scaling, pool = serial) + token-level exact execution of the real estimator',
+         text='Partial. Proved: on every mesh satisfying the invariant the neighbour-symmetry shortcut with its accumulation '
+              'loop equals the direct per-element sum (no assertion fires), for arbitrary patch functionals; the time patch '
+              'is union in time x intersection in space on one piece; the space patch is the common time interval x the union of '
+              'the two elements EXCEPT for a seam pair on the same parametrisation piece, for which the model (and the code) '
+              'integrate the complementary arc -- Lean negation witness and general statement, reproduced on the real code and '
+              'recorded as a known finding; weighted-L2 scaling; pool path = serial path for every worker count given an '
+              'order-preserving map. Tie: real sobolev_space / sobolev_time / estimate_* with token seminorms on real meshes. '
+              'Accuracy for smooth non-polynomial residuals is measured by the search.',
+         note='process scheduling modelled as "map preserves order"; accuracy of the seminorm rules for non-polynomial residuals is not a theorem'),
 ]
 for p in _PENDING:
     if p not in [c['id'] for c in CHECKS]:
